@@ -23,6 +23,16 @@ def handle (line : String) : String :=
     | some g, some [p, pw, s1, s2, srpB, random, kd] =>
       run { realPrims with pbkdf2 := fun _ _ _ _ => kd } g p pr1 pr2 pw s1 s2 srpB random
     | _, _ => "bad-op"
+  | ["newhash", g, p, pr1, pr2, pw, s1, s2, tape, kd] =>
+    match g.toInt?, [p, pw, s1, s2, tape, kd].mapM ofHex with
+    | some g, some [p, pw, s1, s2, tape, kd] =>
+      let pN : Int := (beNat p : Int)
+      let isPrime : Int → Bool := fun n => if n = pN then pr1 == "1" else pr2 == "1"
+      let S : SrpPrims := { realPrims with pbkdf2 := fun _ _ _ _ => kd }
+      match Impl.newHash S isPrime pw tape { salt1 := s1, salt2 := s2, g := g, p := p } with
+      | .ok (h, salt) => s!"ok {toHex h} {toHex salt} {toHex (Impl.primary S pw salt s2)}"
+      | .error e => "err " ++ e.tag
+    | _, _ => "bad-op"
   | _ => "bad-op"
 
 def main : IO Unit := runDriver handle
